@@ -297,6 +297,10 @@ def _weave_fn(text, fs, fid, dserves, log, where, meta, in_trait_impl):
             for t in btoks:
                 if t.kind == IDENT and t.text == "self":
                     t.text = "self_"
+        if getattr(fs, "self_ty", None):
+            for t in btoks:
+                if t.kind == IDENT and t.text == "Self":
+                    t.text = fs.self_ty
         twin_text = "%s %s\n" % (fs.twin, untok(btoks))
         toks = lex(text)
         fn = X.split_fn(toks)
@@ -519,6 +523,9 @@ def expand_extract(d, log, meta, unit_path):
                 except ExtractError:
                     pass
             fs = next((f for f in d.fns if f.name == name), None)
+            if fs is not None:
+                hn = norm(d.item)
+                fs.self_ty = hn.split(" for ", 1)[1] if " for " in hn else hn.split(" ", 1)[1]
             fid = "%s::%s::%s" % (short, norm(d.item), name)
             out_fns.append(_weave_fn(ftext, fs, fid, d.serves, log, where, meta, is_trait_impl))
         if header_text is None:
